@@ -21,6 +21,9 @@ Layer B (drivers, on results of real calls):
                         of one case SHARE equal their pristine copies after every call (diagnostic witness; the property-level
                         verdicts are same_result and the per-operation monitors, which the driver also evaluates against the
                         ORIGINAL parameter values of the case)
+  file_replaced         file input uses a small pool of REUSED paths rewritten by the independent writer; in every case an
+                        operation on path P is followed - with no other file load in between - by replacing P (other stack of the
+                        same shape / another shape / the other dtype) and a second operation on P, which must act on what P holds now
   flip_twice            flipping along an axis, then again (second call fed with the returned array in its declared
                         order, or with the MRC file the first call wrote), restores the input
 """
@@ -71,11 +74,11 @@ def plan(tier):
     if tier == "quick":
         return dict(n_cases=300, shards=2, classes=CLASSES, timeout_s=600,
                     min_evals={"sort_tilts_by_angle": 2000, "remove_tilts": 2800, "split_stack_even_odd": 2000, "flip_along_axes": 3500,
-                               "crop": 3000, "bin": 2000, "params_unchanged": 5000, "output_file": 5000, "output_file_bin_int16_fractional": 150, "indices_load": 1000, "same_result": 4500,
+                               "crop": 3000, "bin": 2000, "params_unchanged": 5000, "file_replaced": 550, "output_file": 5000, "output_file_bin_int16_fractional": 150, "indices_load": 1000, "same_result": 4500,
                                "interleave": 1000, "flip_twice": 800})
     return dict(n_cases=8000, shards=16, classes=CLASSES, timeout_s=3000,
                 min_evals={"sort_tilts_by_angle": 55000, "remove_tilts": 60000, "split_stack_even_odd": 55000, "flip_along_axes": 95000,
-                           "crop": 60000, "bin": 55000, "params_unchanged": 150000, "output_file": 150000, "output_file_bin_int16_fractional": 5000, "indices_load": 30000, "same_result": 130000,
+                           "crop": 60000, "bin": 55000, "params_unchanged": 150000, "file_replaced": 15000, "output_file": 150000, "output_file_bin_int16_fractional": 5000, "indices_load": 30000, "same_result": 130000,
                            "interleave": 30000, "flip_twice": 23000})
 
 
@@ -275,7 +278,7 @@ def setup(ctx):
     f_crop = monitors.wrap(ctx, tiltstack, "crop", "crop", _post_crop, _app_crop)
     f_bin = monitors.wrap(ctx, tiltstack, "bin", "bin", _post_bin, _app_bin)
     f_idx = monitors.wrap(ctx, ioutils, "indices_load", "indices_load", _post_idx, _app_idx)
-    ctx.declare("output_file", "output_file_bin_int16_fractional", "same_result", "interleave", "flip_twice", "params_unchanged")
+    ctx.declare("output_file", "output_file_bin_int16_fractional", "same_result", "interleave", "flip_twice", "params_unchanged", "file_replaced")
     TS = tiltstack.TiltStack
     monitors.trace(ctx, [
         ("TiltStack.__init__", TS.__init__, {"load_file": "self.data = cryomap.read(tilt_stack, transpose=False)",
@@ -503,13 +506,24 @@ def _path(ctx, case, name):
     return os.path.join(ctx.scratch, "c%s_%s" % (case["i"], name))
 
 
+def _pool_file(ctx, case, nyx, tag, force=False):
+    """File input comes from a small pool of REUSED paths (one per extension, shared by all configurations and all cases
+    of the process); the path is rewritten with the independent writer whenever the stack it has to hold changes - as a
+    user (or another program) replacing a file between two operations would."""
+    p = os.path.join(ctx.scratch, "pool_" + "in" + case["fmt"]["in_ext"])
+    pool = ctx.__dict__.setdefault("_c15_pool", {})
+    key = (case["i"], tag)
+    if force or pool.get(p) != key:
+        files.write_mrc_raw(p, nyx.transpose(2, 1, 0), mode=MODE[str(nyx.dtype)])
+        pool[p] = key
+        _count(ctx, "pool_file_rewritten:" + case["fmt"]["in_ext"])
+    return p
+
+
 def _stack_input(ctx, case, v, nyx=None, tag="in"):
     nyx = case["nyx"] if nyx is None else nyx
     if v["in"] == "file":
-        p = _path(ctx, case, tag + case["fmt"]["in_ext"])
-        if not os.path.exists(p):
-            files.write_mrc_raw(p, nyx.transpose(2, 1, 0), mode=MODE[str(nyx.dtype)])
-        return p
+        return _pool_file(ctx, case, nyx, tag)
     a = orc.from_nyx(nyx, v["in_order"])
     lay = v["layout"]
     if lay == "view":                      # not C-contiguous
@@ -674,10 +688,10 @@ def _same(case, op, r0, r1):
     return None
 
 
-def _judge_original(ctx, case, op, v, r):
+def _judge_original(ctx, case, op, v, r, nyx=None, monitor=None):
     """driver-side: the result against the selection computed from the ORIGINAL parameter values of the case (never from
     the parameter objects, which the calls share)"""
-    nyx = case["nyx"]
+    nyx = case["nyx"] if nyx is None else nyx
     if op == "bin":
         w = orc.diff_binned(r[0], nyx, case["bin"])
     else:
@@ -694,7 +708,70 @@ def _judge_original(ctx, case, op, v, r):
         w = None
         for got, e in zip(r, exp):
             w = w or orc.diff_exact(got, e)
-    ctx.check(FN[op], w is None, w and dict(w, judged="driver: against the original parameter values of the case", config=v))
+    ctx.check(monitor or FN[op], w is None, w and dict(w, op=FN[op], judged="driver: against the original parameter values of the case", config=v))
+
+
+def _plain_call(ctx, case, op, stack, out_order, out_file=None):
+    """one call with fresh parameter objects built from the case's original values -> tuple of n,y,x arrays or None"""
+    ts = ctx.ts
+    kw = dict(input_order="xyz", output_order=out_order)
+    if op == "sort":
+        args = (stack, np.array(case["angles"], dtype=np.float64))
+    elif op == "remove":
+        args = (stack, [int(q) for q in case["idx0"]])
+        kw["numbered_from_1"] = False
+    elif op == "split":
+        args = (stack,)
+    elif op == "flip":
+        args = (stack, list(case["axes"]))
+    elif op == "crop":
+        args = (stack,)
+        kw.update(new_width=case["crop"][0], new_height=case["crop"][1])
+    else:
+        args = (stack, int(case["bin"]))
+    if op == "split":
+        kw["output_file_prefix"] = out_file[:-4] if out_file else None
+    else:
+        kw["output_file"] = out_file
+    ok, res = ctx.call(FN[op], getattr(ts, FN[op]), *args, **kw)
+    parts = res if op == "split" else (res,)
+    if not ok or not (isinstance(parts, tuple) and all(isinstance(q, np.ndarray) and q.ndim == 3 for q in parts)):
+        return None
+    return tuple(np.array(orc.to_nyx(q, out_order), copy=True) for q in parts)
+
+
+def _file_replaced(ctx, case, rng):
+    """an operation on file P, then P replaced by other means (independent writer) with a different stack of the same or
+    of another shape, then an operation on P again with no other file load in between: the second result must be the
+    selection from the stack that P holds NOW"""
+    A = case["nyx"]
+    how = str(rng.choice(["same_shape", "same_shape", "other_shape", "other_dtype"]))
+    if how == "other_shape" and A.shape[1] != A.shape[2]:
+        B = np.ascontiguousarray(A.transpose(0, 2, 1))                    # (n, W, H)
+    elif how == "other_dtype":
+        B = (np.clip(np.round(A.astype(np.float64)), -30000, 30000).astype(np.int16)[:, ::-1, :] if A.dtype.kind == "f"
+             else A.astype(np.float32)[:, :, ::-1] + np.float32(0.5))
+        B = np.ascontiguousarray(B)
+    else:
+        how = "same_shape"
+        B = np.ascontiguousarray(A[::-1, ::-1, ::-1])
+    if np.array_equal(np.asarray(A, dtype=np.float64), np.asarray(B, dtype=np.float64)) if A.shape == B.shape else False:
+        return
+    ops2 = [o for o in OPS if not (o == "crop" and B.shape != A.shape)]
+    op1, op2 = OPS[int(rng.integers(0, len(OPS)))], ops2[int(rng.integers(0, len(ops2)))]
+    o1, o2 = orc.ORDERS[int(rng.integers(0, 2))], orc.ORDERS[int(rng.integers(0, 2))]
+    out2 = _path(ctx, case, "replaced_out.mrc") if rng.random() < 0.5 else None
+    P = _pool_file(ctx, case, A, "replaced_A", force=True)
+    r1 = _plain_call(ctx, case, op1, P, o1)
+    if r1 is not None:
+        _judge_original(ctx, case, op1, {"step": "first operation on the file", "op": FN[op1]}, r1, nyx=A, monitor="file_replaced")
+    P2 = _pool_file(ctx, case, B, "replaced_B", force=True)
+    r2 = _plain_call(ctx, case, op2, P2, o2, out2)
+    _count(ctx, "file_replaced:%s" % how)
+    if r2 is not None:
+        _judge_original(ctx, case, op2, {"step": "same path after the file was replaced (%s)" % how, "first_op": FN[op1], "op": FN[op2],
+                                         "stack_before_nyx": list(A.shape), "stack_now_nyx": list(B.shape), "dtype_now": str(B.dtype)},
+                        r2, nyx=B, monitor="file_replaced")
 
 
 def run_case(ctx, case):
@@ -736,6 +813,7 @@ def run_case(ctx, case):
         w = orc.diff_exact(orc.to_nyx(r2, o2), nyx)
         ctx.check("flip_twice", w is None, w and dict(w, axis=ax, first_call=v1, second_input="file written by first call" if via_file else "returned array",
                                                       second_output_order=o2))
+    _file_replaced(ctx, case, rng)
     for f in os.listdir(ctx.scratch):
         if f.startswith("c%s_" % case["i"]):
             try:
